@@ -2,6 +2,7 @@ import GdcVerif.Gen.JpegLs
 import GdcVerif.Spec.T87
 import GdcVerif.Lemmas.JpegLsT87
 import GdcVerif.Lemmas.JpegLsT87Ctx
+import GdcVerif.Lemmas.JpegLsT87Golomb
 import GdcVerif.Lemmas.JpegLsCtx
 /-!
   C14 — JPEG-LS conforms to ITU-T T.87: parameters and per-sample procedures.
@@ -142,6 +143,26 @@ theorem runInterruption_eq_T87 (c : RunModeContext) (e em k reset : Int) (p : T8
 
 example : riSpec (RunModeContext.UpdateVariables { runInterruptionType := 1, A := 5, N := 64, NN := 3 } (-2) 3 64) =
     { RItype := 1, A := 3, N := 33, Nn := 2 } := by decide
+
+/-- (12) Golomb coding parameter: the regular-mode loop (`Context.ComputeGolombParameter`, model
+    `JpegLsScan.golombParam` with the fuel the scan model uses) yields T.87 A.10's `k` — the least `k`
+    with `N·2^k ≥ A` — whenever `A ≤ N·2^16` (beyond that the code's cap `k < 16` stops the loop, the
+    standard has no cap); the run-interruption loop (`RunModeContext.GetGolombCode`) yields A.20's `k`
+    for `TEMP = A + (N>>1)·RItype` whenever `TEMP ≤ N·2^32` -/
+theorem golombParameter_eq_T87 :
+    (∀ ctx : Context, ctx.A ≤ ctx.N * 2 ^ 16 →
+      ∃ k : Nat, JpegLsScan.golombParam ctx 17 0 = (k : Int) ∧ T87.IsGolombK ctx.N ctx.A k) ∧
+    (∀ c : RunModeContext, (c.runInterruptionType = 0 ∨ c.runInterruptionType = 1) →
+      c.A + c.N / 2 * c.runInterruptionType ≤ c.N * 2 ^ 32 →
+      ∃ k : Nat, JpegLsRun.getGolombCode c = (k : Int) ∧
+        T87.IsGolombK c.N (if c.runInterruptionType = 1 then c.A + c.N / 2 else c.A) k) :=
+  ⟨fun ctx h => golombParam_eq ctx h, fun c h1 h2 => getGolombCode_eq c h1 h2⟩
+
+example : JpegLsScan.golombParam { A := 37, N := 5, B := 0, C := 0 } 17 0 = 3 ∧ T87.IsGolombK 5 37 3 := by
+  refine ⟨by decide, by decide, ?_⟩
+  intro j hj
+  have : j = 0 ∨ j = 1 ∨ j = 2 := by omega
+  rcases this with h | h | h <;> subst h <;> decide
 
 /-! ### lossless package = near-lossless package at NEAR = 0 (kernel level) -/
 
